@@ -416,12 +416,14 @@ def run_prop(prop, tier, seed):
     if prop == "C07":
         fails += transient_error_probes(rep)
         fails += failing_tool_probe(rep)
+        fails += athrow_only_probe(rep)
         fails += concurrent_close_probe(rep)
         fails += scope_over_handle_probe(rep)
     if prop == "C08":
         fails += shared_iterator_oracle(rep, rng, tier)
         fails += scope_object_probes(rep)
         fails += shared_consumption_probe(rep)
+        fails += athrow_only_probe(rep)
         fails += scope_over_handle_probe(rep)
     if not proofs_ok:
         rep.violation("proof-broken", {"broken": rep.notes.get("broken_file", "?"), "log": rep.notes.get("build_log_tail", "")[-1500:]}, no_input=True)
@@ -571,6 +573,63 @@ def failing_tool_probe(rep):
             if why:
                 fails += 1
                 rep.violation("borrow:failing-tool", {"underlying": kind, "tool": name, "why": "borrow(u) given to %s whose callable raises at its third call: %s" % (name, why)})
+    return fails
+
+
+def athrow_only_probe(rep):
+    """C07/C08, directed: an underlying iterator that offers athrow (and asend) but no aclose is not closeable, so nothing the
+    library does on behalf of a borrower may shut it down some other way: tools finishing or being closed over a
+    scoped_iter / borrow handle of it never call its athrow, and the owner gets the remaining items"""
+    fails = 0
+
+    class AthrowOnly(U):
+        def __init__(self, items):
+            U.__init__(self, items)
+            self.thrown = []
+
+        async def asend(self, value):
+            return await self.__anext__()
+
+        async def athrow(self, *a_):
+            self.thrown.append(getattr(a_[0], "__name__", type(a_[0]).__name__))
+            self.closed += 1
+            raise a_[0] if not isinstance(a_[0], type) else a_[0]()
+    for via in ("scoped_iter", "borrow"):
+        for name, tool, _ in TOOLS:
+            for early in (False, True):
+                u = AthrowOnly([Obj(j + 1, j) for j in range(6)])
+                got = {}
+
+                async def use(h):
+                    t = tool(a.islice(a.borrow(h), 2) if not early else h)
+                    if early:
+                        await t.__anext__()
+                        if hasattr(t, "aclose"):       # (iter() of an uncloseable iterator is that iterator)
+                            await t.aclose()
+                    else:
+                        got["items"] = len([x async for x in t])
+
+                async def go():
+                    if via == "scoped_iter":
+                        async with a.scoped_iter(u) as h:
+                            await use(h)
+                            got["in_block"] = (await h.__anext__()).id
+                    else:
+                        await use(a.borrow(u))
+                    got["owner"] = (await u.__anext__()).id
+                try:
+                    drive(go())
+                    why = None
+                    if u.thrown:
+                        why = "the underlying iterator was thrown %r" % (u.thrown,)
+                    elif not isinstance(got.get("owner"), int):
+                        why = "the owner got %r afterwards" % (got.get("owner"),)
+                except BaseException as e:  # noqa
+                    why = "failed with %r (thrown into the underlying iterator: %r)" % (e, u.thrown)
+                rep.count(("athrow-only", via, name, early), True)
+                if why:
+                    fails += 1
+                    rep.violation("borrow:athrow-only", {"via": via, "tool": name, "closed_early": early, "why": "an iterator with athrow but without aclose, handed to %s through %s: %s" % (name, via, why)})
     return fails
 
 
@@ -758,7 +817,7 @@ def scope_over_handle_probe(rep):
     the block closes neither the handle's owner nor -- for a borrowed handle, whose aclose is its own business -- anything
     beyond what the scope took"""
     fails = 0
-    for how in ("direct", "iter", "tool"):
+    for how in ("direct", "iter", "tool", "raise"):
         for kind in ("close", "send", "gen"):
             u = make_u(kind, [Obj(j + 1, j) for j in range(8)])
             real = u.g if kind == "gen" else u
@@ -767,6 +826,23 @@ def scope_over_handle_probe(rep):
             async def go():
                 b = a.borrow(real)
                 got["b0"] = (await b.__anext__()).id
+                if how == "raise":
+                    # the block fails: that is the block's business, the iterator the handle was borrowed from hears nothing of it
+                    try:
+                        async with a.scoped_iter(b) as s_:
+                            got["s0"] = (await s_.__anext__()).id
+                            raise KeyError("the block failed")
+                    except KeyError:
+                        pass
+                    try:
+                        got["b1"] = (await b.__anext__()).id
+                    except StopAsyncIteration:
+                        got["b1"] = "stop"
+                    try:
+                        got["u_after"] = (await real.__anext__()).id
+                    except StopAsyncIteration:
+                        got["u_after"] = "stop"
+                    return
                 async with a.scoped_iter(b) as s_:
                     got["s0"] = (await s_.__anext__()).id
                     if how == "direct":
@@ -787,7 +863,11 @@ def scope_over_handle_probe(rep):
                 drive(go())
                 nxt = 3 + (1 if how == "tool" else 0)
                 why = None
-                if got.get("b1") != nxt:
+                if how == "raise":
+                    # (leaving the block closes the handle the scope was given -- its own business --, never what is beneath it)
+                    if got.get("u_after") != 3:
+                        why = "after a failing block over a borrowed handle the underlying iterator gave its owner %r, expected item 3" % (got.get("u_after"),)
+                elif got.get("b1") != nxt:
                     why = "after closing the scoped iterator (%s) the borrowed handle it was made from gave %r, expected item %d" % (how, got.get("b1"), nxt)
                 elif got.get("u_after") != nxt + 1:
                     why = "the underlying iterator gave its owner %r afterwards, expected item %d" % (got.get("u_after"), nxt + 1)
